@@ -9,6 +9,7 @@
 -/
 import Koreo.Lemmas.HotReload
 import Koreo.Lemmas.HotReloadLive
+import Koreo.Lemmas.HotReloadRegistry
 import Koreo.Gen.CacheFacts
 
 namespace Koreo.C16
@@ -191,6 +192,49 @@ theorem eventually_idle {decl : Spec → (R → Bool) → List R} {rank : R → 
     · obtain ⟨r, _, rfl⟩ := List.mem_map.1 h1; trivial
   have hidle := settle_aux rs (inv_run acts (inv_init decl rank) ha) hsorted hcover
   exact ⟨rs, hidle, hreach, coherent_when_idle hreach hidle⟩
+
+/-! ## the registry abstraction is faithful to the C17 model of `registry.py` -/
+
+section Link
+open Koreo.HotReload.Link
+variable {SpecN : Type}
+
+/-- **C16 ↔ C17.**  The hot-reload system abstracts the registry to `subs`/`queue`.  For every
+    history (any interleaving, ranked declarations, resources numbered by `Nat` as in the C17
+    model) there is a state `g` of the detailed C17 registry model — reached from its initial
+    state by `registry.py` operations as the cache issues them (`register`, `subscribe_only_to`,
+    `notify_subscribers`, `kill_resource`, `deregister`) and by the monitors emptying their own
+    queues — such that the two agree: same subscriptions, and resource by resource the same
+    (open, unbounded) queue holding the same event times.  In particular `subscribe_only_to` is
+    never refused on the way (`sim_setSubs`: the level-wise cycle check answers "no cycle" because
+    declarations are ranked), so no `SubscriptionCycle` escapes into the cache. -/
+theorem registry_view_is_c17_reachable (decl : SpecN → (Nat → Bool) → List Nat) (rank : Nat → Nat)
+    (acts : List (Action Nat SpecN)) (ha : ∀ a ∈ acts, Ranked decl rank a) :
+    ∃ g, RegReach g ∧ Abs g (run decl init acts) :=
+  sim_run acts sim_init w_init ha
+
+/-- hence what C17 proves of its model holds for the registry as the cache uses it: the two
+    subscription indexes are inverse views of each other and duplicate-free, and the subscription
+    graph is acyclic -/
+theorem registry_invariants_transfer (decl : SpecN → (Nat → Bool) → List Nat) (rank : Nat → Nat)
+    (acts : List (Action Nat SpecN)) (ha : ∀ a ∈ acts, Ranked decl rank a) :
+    ∃ g, Abs g (run decl init acts) ∧
+      (∀ a b, b ∈ g.subs a ↔ a ∈ g.subscribers b) ∧
+      Koreo.Registry.Acyclic (Koreo.Registry.Edge g) ∧
+      (∀ a, (g.subs a).Nodup ∧ (g.subscribers a).Nodup) := by
+  obtain ⟨g, hr, habs⟩ := registry_view_is_c17_reachable decl rank acts ha
+  have hg := regReach_good hr
+  exact ⟨g, habs, hg.1.inv, hg.1.acyclic, fun a => ⟨hg.1.nodupSubs a, hg.1.nodupSubscribers a⟩⟩
+
+/-- and a notification reaches exactly the subscribers that have a queue, once each: the
+    deliveries the detailed delivery loop reports are those of the abstract `notify` -/
+theorem notify_delivers_as_c17 {g : G} {s : State Nat SpecN} (hr : RegReach g) (h : Abs g s) (d t : Nat) :
+    Abs (Koreo.Registry.step g (.notify d t)).1 (notify s d t) ∧
+    ∃ ds, (Koreo.Registry.step g (.notify d t)).2 = .delivered ds ∧
+      ∀ y, y ∈ ds ↔ (d ∈ s.subs y ∧ (s.queue y).isSome = true) :=
+  abs_notifyWith (regReach_good hr) h d t (some t) (by intro t' e; cases e; rfl) .delivered
+
+end Link
 
 /-! ## non-vacuity: concrete histories over the preparer family the harness installs
     (`condDecl`: static dependencies plus dependencies declared only while another resource is
